@@ -219,6 +219,36 @@ def e2e(ctx):
         ctx.count("e2e:invariant-case-error:" + type(e).__name__)
         ctx.note(f"invariant case error: {type(e).__name__}: {e}")
 
+    # invariant mode: a target function gets stuck on an unsupported feature, directly and inside a nested call; the stop
+    # must be reported (error / warning) whatever the call depth, and the half-executed state must not count as explored
+    def self_call2(sig):
+        return (asm.selector_word(asm.selector(sig)) + [("push", 0), "MSTORE",
+                ("push", 0), ("push", 0), ("push", 4), ("push", 0), ("push", 0), "ADDRESS", "GAS", "CALL", "POP"])
+
+    stop_body = [("push", 0), ("raw", b"\x49"), "POP", "STOP"]
+    for tag, poke_body in (("direct", stop_body + [("push", 1), ("push", 0), "SSTORE", "STOP"]),
+                           ("nested", self_call2("helper()") + [("push", 1), ("push", 0), "SSTORE", "STOP"])):
+        scn = E.Scenario("InvStuck" + tag, [E.Target("Tgt", [E.TFn("poke()", poke_body), E.TFn("helper()", stop_body, mutability="view"),   # view: not itself a target
+                                                             E.TFn("slot0()", [("push", 0), "SLOAD", ("push", 0), "MSTORE", ("push", 32), ("push", 0), "RETURN"],
+                                                                   mutability="view")])],
+                         [E.Inv("invariant_slot0_not_one", asm.if_then(asm.eq_const(E.call_view(E.FIRST_CREATED, asm.selector('slot0()')), 1), asm.panic(1)))])
+        try:
+            desc, others = scn.build()
+            run = run_contract_offline(desc, others=others, invariant_depth=1)
+            ctx.case(("e2e-invariant-stuck", tag))
+            text = " ".join(run.warnings) + " " + " ".join(getattr(run, "errors", []) or []) + " " + run.stdout
+            reported = "Unsupported opcode" in text or "HalmosException" in text or "stuck" in text.lower()
+            for r in run.results:
+                ctx.count(f"e2e:invariant-stuck:{tag}:exit{r.exitcode}:reported={reported}")
+                if r.exitcode == 0 and not reported:
+                    ctx.violation(f"C10|e2e|invariant-target-stuck-not-reported|{tag}",
+                                  f"target poke() is stopped by an unsupported opcode ({tag}) during invariant testing; the invariant is "
+                                  f"reported PASS and nothing (error, warning) says that the call was not explored",
+                                  {"case": tag, "stdout": run.stdout[-800:]})
+        except Exception as e:  # noqa: BLE001
+            ctx.count("e2e:invariant-stuck-case-error:" + type(e).__name__)
+            ctx.note(f"invariant stuck case error ({tag}): {type(e).__name__}: {e}")
+
     # invariant body with a loop whose trip count is read from storage; several frontier states, the loop is cut only on
     # some of them (symbolic slot after set(x), concrete after one()/zero()): the cut must be reported whatever the order
     # in which the frontier states are visited
